@@ -799,3 +799,108 @@ theorem Link.init (c p w : Nat) (g : Blk) : Link g (HyperModel.Snow.init c p w g
   · intro a ha; simp [Eng.init] at ha
 
 end HyperModel.Snow
+
+namespace HyperModel.Snow
+
+/-! ### Only `SetPreference` changes the VM's preference (normal operation) -/
+
+theorem pref_materialize (s : State) (f : Found) : (s.materialize f).1.preferred = s.preferred := by
+  cases f <;> rfl
+
+theorem pref_get (s : State) (id : Nat) : (get s id).1.preferred = s.preferred := by
+  unfold HyperModel.Snow.get
+  have := pref_materialize s (s.getBlock id)
+  split <;> simp_all
+
+theorem pref_getH (s : State) (ht : Nat) : (getH s ht).1.preferred = s.preferred := by
+  unfold HyperModel.Snow.getH
+  split
+  · rfl
+  · split
+    · rfl
+    · split
+      · rfl
+      · exact pref_get s _
+
+theorem pref_parse (s : State) (b : Blk) : (parse s b).1.preferred = s.preferred := by
+  unfold HyperModel.Snow.parse
+  split
+  · split <;> rfl
+  · have := pref_materialize s (s.getBlock b.id)
+    split <;> simp_all
+
+theorem pref_build (s : State) (n : Nat) (c : Option Nat) : (build s n c).1.preferred = s.preferred := by
+  unfold HyperModel.Snow.build
+  dsimp only
+  split
+  · rfl
+  · split <;> rfl
+
+theorem pref_verify (s : State) (h : Nat) (c : Option Nat) : (verify s h c).1.preferred = s.preferred := by
+  unfold HyperModel.Snow.verify
+  dsimp only
+  split
+  · rfl
+  · split
+    · split <;> rfl
+    · split
+      · rfl
+      · split
+        · rfl
+        · split
+          · rfl
+          · split <;> rfl
+
+theorem pref_accept (s : State) (h : Nat) : (accept s h).1.preferred = s.preferred := by
+  unfold HyperModel.Snow.accept
+  dsimp only
+  split
+  · rfl
+  · split
+    · rfl
+    · split
+      · rfl
+      · split <;> rfl
+
+theorem pref_reject (s : State) (h : Nat) : (reject s h).1.preferred = s.preferred := by
+  unfold HyperModel.Snow.reject
+  dsimp only
+  split <;> rfl
+
+theorem pref_deq (s : State) : (deq s).1.preferred = s.preferred := by
+  unfold HyperModel.Snow.deq
+  split
+  · split <;> rfl
+  · rfl
+
+theorem pref_fin (s : State) : (fin s).1.preferred = s.preferred := by
+  unfold HyperModel.Snow.fin
+  split <;> rfl
+
+/-- every normal-operation step other than `SetPreference` leaves the preference alone; in
+particular `Accept` (`setLastAccepted`) does not reset it -/
+theorem preferred_stable (s : State) (op : Op)
+    (hn : (match op with | .start _ | .finish _ _ | .pref _ => false | _ => true) = true) :
+    (step s op).1.preferred = s.preferred := by
+  unfold HyperModel.Snow.step
+  split
+  · rfl
+  · cases op with
+    | build n c => exact pref_build s n c
+    | parse b => exact pref_parse s b
+    | verify h c => dsimp only; split; exact pref_verify s h c; rfl
+    | accept h => dsimp only; split; exact pref_accept s h; rfl
+    | reject h => dsimp only; split; exact pref_reject s h; rfl
+    | pref id => simp at hn
+    | get id => exact pref_get s id
+    | getH ht => exact pref_getH s ht
+    | last => rfl
+    | deq => exact pref_deq s
+    | fin => exact pref_fin s
+    | start b => simp at hn
+    | finish b st => simp at hn
+    | health => rfl
+    | ciLast => rfl
+    | ciPref => rfl
+
+end HyperModel.Snow
